@@ -19,7 +19,7 @@ static uint64_t case_hash(const TypeOps& t, const Value& v, uint64_t extra = 0) 
 
 // Makes a value whose logical-buffer size member is out of range (above capacity or negative).
 // Returns false when the schema has no bounded logical buffer on a path that is always encoded.
-static bool break_lbuf(const Schema& s, Value& v, Tape& t) {
+bool break_lbuf(const Schema& s, Value& v, Tape& t) {
   switch (s.k) {
     case K::Bin: case K::Seq:
       if (s.maxc >= 0 && !s.unbounded) {
